@@ -9,7 +9,10 @@ def contOf : String → Option Cont | "bytes" => some .bytes | "array" => some .
 def opOf : String → Option Op
   | "readView" => some .readView | "mutView" => some .mutView | "arrayView" => some .arrayView | "index" => some .index
   | "resize" => some .resize | "clone" => some .clone | "lock" => some .lock | "unlock" => some .unlock
-  | "ro" => some .ro | "rw" => some .rw | "na" => some .na | "useAfter" => some .useAfter | _ => none
+  | "ro" => some .ro | "rw" => some .rw | "na" => some .na | "useAfter" => some .useAfter
+  | "asRef" => some .asRef | "asMut" => some .asMut | "indexMut" => some .indexMut | "copyFrom" => some .copyFrom
+  | "mutArrayView" => some .mutArrayView | "cloneFrom" => some .cloneFrom | "serialize" => some .serialize
+  | "zeroize" => some .zeroize | _ => none
 
 def handle (op : String) (args : List String) : Option Driver.Ans :=
   match op, args with
